@@ -59,7 +59,8 @@ WidthShapes == {<<"altbits", b>> : b \in {1, 7, 8, 9, 15, 16, 17, 24, 31, 32, 33
 OrderShapes == {<<"desc", 0>>, <<"desc16", 0>>, <<"asc16", 0>>, <<"asc16dup", 0>>}
 RepeatShapes == {<<"runs", r>> : r \in {1, 2, 240, 241}} \cup {<<"fewuniq", k>> : k \in {2, 3, 255, 256, 257}}
 WideShapes == {<<"nine", 0>>, <<"max64", 0>>, <<"rand64", 0>>, <<"rand32", 0>>, <<"rand8", 0>>}
-PatchShapes == {<<"marker", w>> : w \in {0, 1, 2}} \cup {<<"outfirst", 0>>, <<"outlast", 0>>}
+\* marker: offset width (w % 3 + 1 bytes) x position of the minimum (w \div 3: first, last, middle)
+PatchShapes == {<<"marker", w>> : w \in 0..8} \cup {<<"outfirst", 0>>, <<"outlast", 0>>}
                \cup {<<"cluster", k>> : k \in {0, 10, 49, 51, 200}}
 SamplerShapes == {<<"periodic", s>> : s \in {2, 10, 20}}
 \* arithmetic progressions whose MINIMUM sits exactly on, one below and one
@@ -89,7 +90,7 @@ BlockCodecs == {"bp32", "bp64", "bpd32", "bpd64", "for", "pfor", "adaptive"}
 \* worst cases of the size bounds (C03)
 WorstShapes == WideShapes \cup {<<"outlast", 0>>, <<"outfirst", 0>>, <<"runs", 1>>, <<"runs", 241>>,
                                 <<"fewuniq", 257>>, <<"periodic", 10>>, <<"periodic", 20>>, <<"altbits", 64>>,
-                                <<"marker", 0>>, <<"randw", 0>>}
+                                <<"marker", 0>>, <<"marker", 4>>, <<"randw", 0>>}
 
 Applicable(c, n, s) ==
   CASE Purpose = "c03" ->
